@@ -5,11 +5,14 @@ PROP = "C05"
 
 
 def main():
-    return G.main(PROP, dict(verus_units=[("dfa_builders", 16)],
+    return G.main(PROP, dict(verus_units=[("dfa_builders", 16), ("add_dfa", 3)],
                              trusted=G.COMMON_TRUSTED + [
                                  "Verus unit dfa_builders (real functions of dfa.rs, rules subst R14 R16 R19): obeys_key_model for char and StateIdx keys (axioms); the builders' preconditions "
-                                 "(indices below the number of states, slot still empty) are NOT verified at their callers in nfa_to_dfa / add_dfa"],
+                                 "(indices below the number of states, slot still empty) are NOT verified at their callers in nfa_to_dfa / add_dfa",
+                                 "Verus unit add_dfa (see C03): two trusted R7 fragments, assumed contract of RangeMap::map"],
                              assumptions=G.COMMON_ASSUMPTIONS + [
                                  "proved for dfa.rs: State::has_no_transitions is true exactly when a state has no character, range, `_` AND no end-of-input transition (so a state that can still go on through `$` is "
                                  "never classified as transition-less by simplify); set_end_of_input_transition / set_any_transition / add_char_transition / set_range_transitions store exactly the given "
-                                 "target in exactly the given slot and leave every other state and slot unchanged (whole-view postconditions)"]))
+                                 "target in exactly the given slot and leave every other state and slot unchanged (whole-view postconditions)",
+                                 "proved for DFA::add_dfa: the `$` (and `_`, range, character) target of every state of a further rule set is moved up by exactly the number of states that were there before - "
+                                 "so `$` in a later rule set leads to that rule set's own state"]))
